@@ -155,7 +155,8 @@ set_drop = Fn(F, ["impl Drop for OsIpcReceiverSet", "drop"], extra_params=TS,
              "    }\n"
              "}", "unix.set.drop/loop0.invariant.remaining_members_still_open"),
     ],
-    rules=[ValuesFor(), AppendArg("B27", r"libc::close\(", S, "close issued by the set's Drop", min_count=1, rename="k_close_member")],
+    rules=[ValuesFor(), AppendArg("B27", r"libc::close\(", S, "close issued by the set's Drop", rename="k_close_member"),
+           AppendArg("B21b", r"\.deregister\(", S, "mio Registry::deregister named explicitly -> stub over the ghost world")],
     attrs="#[verifier::loop_isolation(false)]",
     safety_props=["C11", "C06"])
 
